@@ -1,8 +1,14 @@
 import PebblesVerif.Model.Plan
+import PebblesVerif.Gen.Vars
 /-!
 Model of the computed values of a plan step (planner/plan.go:53-143) and of the header the
 formatter synthesises (format/format.go:231-311, 383-416): operation keyword and name (root steps
-only), variable declarations synthesised from ARGUMENT POSITIONS, `VariablesList`.
+only), variable declarations synthesised from ARGUMENT POSITIONS — of the fields and, since the
+repair recorded in `Gen/Vars.lean`, of the DIRECTIVES of the fields —, `VariablesList`.
+Whether the directives of a field are walked is a regenerated fact (`Gen.Vars.directivesWalkedInHeader`
+for `format.walkArgumentList`, `Gen.Vars.directivesWalkedInVariablesList` for
+`planner.getVariablesList`); the functions `…With` take it as a parameter so that both shapes of
+the code can be talked about.
 The body of the query string is kept as an AST (the printed text is gqlparser-parsed by the fake
 services in the correspondence run, so a harmless formatting change breaks nothing); `renderSels`
 is only used as the de-duplication key (`QueryStringHash`).
@@ -46,16 +52,25 @@ def argRaws (a : Arg) : List String :=
   | .object fs => childRawsO fs
   | v => [v.raw]
 
+/-- raw names contributed by one directive of a field (`getArgumentListVariablesList(d.Arguments)`) -/
+def dirRaws (d : Dir) : List String := d.args.flatMap argRaws
+
 mutual
-  /-- `getVariablesList` (document order; inline fragments in place; spreads ignored) -/
-  def varNames : List Sel → List String
+  /-- `getVariablesList` (document order; inline fragments in place; spreads ignored); per field:
+      its arguments, then — `dirs` = the function walks `f.Directives` — the arguments of its
+      directives, then its selection set -/
+  def varNamesWith (dirs : Bool) : List Sel → List String
     | [] => []
-    | s :: rest => varNamesSel s ++ varNames rest
-  def varNamesSel : Sel → List String
-    | .field _ _ args _ _ _ sub => args.flatMap argRaws ++ varNames sub
-    | .inline _ _ _ _ sub => varNames sub
+    | s :: rest => varNamesSelWith dirs s ++ varNamesWith dirs rest
+  def varNamesSelWith (dirs : Bool) : Sel → List String
+    | .field _ _ args ds _ _ sub =>
+      args.flatMap argRaws ++ (if dirs then ds.flatMap dirRaws else []) ++ varNamesWith dirs sub
+    | .inline _ _ _ _ sub => varNamesWith dirs sub
     | .spread .. => []
 end
+
+/-- `getVariablesList` as the code has it now -/
+def varNames (ss : List Sel) : List String := varNamesWith Gen.Vars.directivesWalkedInVariablesList ss
 
 def uniq (l : List String) : List String :=
   l.foldl (fun acc x => if acc.contains x then acc else acc ++ [x]) []
@@ -97,17 +112,34 @@ def argVarTypes (schema : Schema) (argDefs : List ArgDef) (acc : List (String ×
     | .object (x :: xs) => if (schema.type? ad.type.name).isSome then childVarTypesO (x :: xs) acc else acc
     | _ => acc
 
+/-- the arguments of one directive of a field: like the arguments of a field, with the argument
+    definitions of the DIRECTIVE's definition (`dir.Definition.Arguments`; the validator resolves
+    `dir.Definition` in the schema the operation was validated against; a directive without
+    definition is passed over) -/
+def dirVarTypes (schema : Schema) (acc : List (String × String)) (d : Dir) : List (String × String) :=
+  match schema.directives.find? (·.name == d.name) with
+  | none => acc
+  | some dd => d.args.foldl (argVarTypes schema dd.args) acc
+
 mutual
   /-- `Formatter.walkArgumentList`: variable name ↦ declared type of the argument position
-      (later positions overwrite earlier ones) -/
-  def walkArgs (schema : Schema) : List Sel → List (String × String) → List (String × String)
+      (later positions overwrite earlier ones); per field: its arguments, then — `dirs` = the
+      function walks `field.Directives` — the arguments of its directives, then its selection set -/
+  def walkArgsWith (dirs : Bool) (schema : Schema) : List Sel → List (String × String) → List (String × String)
     | [], acc => acc
-    | s :: rest, acc => walkArgs schema rest (walkArgsSel schema s acc)
-  def walkArgsSel (schema : Schema) : Sel → List (String × String) → List (String × String)
-    | .field _ _ args _ _ argDefs sub, acc => walkArgs schema sub (args.foldl (argVarTypes schema argDefs) acc)
-    | .inline _ _ _ _ sub, acc => walkArgs schema sub acc
+    | s :: rest, acc => walkArgsWith dirs schema rest (walkArgsSelWith dirs schema s acc)
+  def walkArgsSelWith (dirs : Bool) (schema : Schema) : Sel → List (String × String) → List (String × String)
+    | .field _ _ args ds _ argDefs sub, acc =>
+      let acc1 := args.foldl (argVarTypes schema argDefs) acc
+      let acc2 := if dirs then ds.foldl (dirVarTypes schema) acc1 else acc1
+      walkArgsWith dirs schema sub acc2
+    | .inline _ _ _ _ sub, acc => walkArgsWith dirs schema sub acc
     | .spread .., acc => acc
 end
+
+/-- `Formatter.walkArgumentList` as the code has it now -/
+def walkArgs (schema : Schema) (ss : List Sel) (acc : List (String × String)) : List (String × String) :=
+  walkArgsWith Gen.Vars.directivesWalkedInHeader schema ss acc
 
 def insertSortedStr (x : String) : List String → List String
   | [] => [x]
